@@ -4,8 +4,11 @@ import (
 	"bytes"
 	"fmt"
 	"io"
+	"log"
 	"net"
 	"net/http"
+	"net/http/httputil"
+	"net/url"
 	"strings"
 	"sync"
 	"time"
@@ -21,10 +24,38 @@ func init() {
 	register("C16", worldC16)
 }
 
+// bridgeViaLB: the websocket leg of the bridge runs through an HTTP intermediary (a
+// stock net/http/httputil reverse proxy on node "lb"), as in the deployments the
+// bridge is meant for; such a hop forwards websocket frames and ends the whole
+// tunnel as soon as either of its copy directions ends.
+var bridgeViaLB bool
+
+func chooseBridgePath(w *World) {
+	bridgeViaLB = w.T.Rare(1, 4, "via-http-intermediary")
+	if bridgeViaLB {
+		w.Probe("websocket_leg_through_http_intermediary")
+	}
+}
+
 func startBridge(w *World) {
 	sim.SetArgs("tcp-bridge-backend", "-frontend-port=8080", "-backend-port=8081")
 	w.K.Spawn("bback", bridgebackend.Main)
-	sim.SetArgs("tcp-bridge-frontend", "-frontend-port=9000", "-backend=ws://bback:8080/")
+	target := "ws://bback:8080/"
+	if bridgeViaLB {
+		target = "ws://lb:8080/"
+		w.K.Spawn("lb", func() {
+			l, err := sim.Listen("tcp", ":8080")
+			if err != nil {
+				panic(err)
+			}
+			u, _ := url.Parse("http://bback:8080")
+			rp := httputil.NewSingleHostReverseProxy(u)
+			rp.Transport = &http.Transport{DialContext: sim.DialContext}
+			rp.ErrorLog = log.New(io.Discard, "", 0)
+			http.Serve(l, rp)
+		})
+	}
+	sim.SetArgs("tcp-bridge-frontend", "-frontend-port=9000", "-backend="+target)
 	w.K.Spawn("bfront", bridgefrontend.Main)
 }
 
@@ -93,7 +124,8 @@ func genSide(t *sim.Tape, thorough bool) bridgeSide {
 	}
 	s.Pause = []time.Duration{0, 0, time.Millisecond, 50 * time.Millisecond}[t.Choice(4, "wpause")]
 	s.ReadBuf = []int{32 << 10, 1, 7, 1024, 4096, 100000}[t.Choice(6, "readbuf")]
-	s.ReadStall = []time.Duration{0, 0, 0, 1500 * time.Millisecond, 4 * time.Second}[t.Choice(5, "readstall")]
+	// (the longest stall spans the keep-alive periods that intermediaries commonly use)
+	s.ReadStall = []time.Duration{0, 0, 0, 1500 * time.Millisecond, 4 * time.Second, 0, 0, 21 * time.Second}[t.Choice(8, "readstall")]
 	return s
 }
 
@@ -327,12 +359,14 @@ func worldC15(w *World) {
 		}
 	}
 	passthrough := t.Rare(1, 3, "passthrough")
+	chooseBridgePath(w)
 	chooseGreeting(w)
 	if len(bridgeGreeting) > 0 {
 		passthrough = false // the greeting is not HTTP
 	}
 	passBody := "pass-body-" + strings.Repeat("z", t.Choice(3000, "passlen"))
 	slowPass := t.Rare(1, 3, "slowpassthrough")
+	passPath := []string{"/some/path?x=1", "/some/path?x=1", "/objects//2024/report.bin", "/a/./b?x=1", "/a/../b", "//double/start"}[t.Choice(6, "passpath")]
 	passStatus := ""
 	mu := &sync.Mutex{}
 	bridgeWorld(w, mu, conns, func() {
@@ -351,7 +385,7 @@ func worldC15(w *World) {
 				reqBody = pr
 				w.Probe("slow_passthrough_upload")
 			}
-			req, _ := http.NewRequest("POST", "http://bback:8080/some/path?x=1", reqBody)
+			req, _ := http.NewRequest("POST", "http://bback:8080"+passPath, reqBody)
 			if slowPass {
 				req.ContentLength = int64(len(passBody))
 			}
@@ -365,9 +399,9 @@ func worldC15(w *World) {
 				passStatus = fmt.Sprintf("%d %s", resp.StatusCode, b)
 			}
 		}
-		// wait until every planned byte has arrived, or nothing has moved for 30 s
+		// wait until every planned byte has arrived, or nothing has moved for 90 s (a reader may stall twice for 21 s)
 		last, still := -1, 0
-		for i := 0; i < 20000 && still < 60; i++ {
+		for i := 0; i < 20000 && still < 180; i++ {
 			time.Sleep(500 * time.Millisecond)
 			mu.Lock()
 			done := true
@@ -426,6 +460,9 @@ func worldC15(w *World) {
 			if (bc.C.ReadStall > 0 && bc.S.total() > 65536) || (bc.S.ReadStall > 0 && bc.C.total() > 65536) {
 				w.Probe("slow_reader_with_bulk_data")
 			}
+			if (bc.C.ReadStall > 20*time.Second && bc.S.total() > 16384) || (bc.S.ReadStall > 20*time.Second && bc.C.total() > 16384) {
+				w.Probe("reader_stalled_for_20s_with_data_backed_up")
+			}
 		}
 		if both {
 			w.Probe("both_directions_at_once")
@@ -441,7 +478,7 @@ func worldC15(w *World) {
 			found := false
 			passMu.Lock()
 			for _, p := range passSeen {
-				if p == "POST /some/path?x=1 HTTP/1.1|"+passBody {
+				if p == "POST "+passPath+" HTTP/1.1|"+passBody {
 					found = true
 				}
 			}
@@ -494,6 +531,7 @@ func worldC16(w *World) {
 		conns[i] = bc
 	}
 	const budget = 60 * time.Second
+	chooseBridgePath(w)
 	chooseGreeting(w)
 	// the TCP server may be down: every dial of the bridge backend is refused; each
 	// client must then see the end of its connection, and nothing may stay open
